@@ -113,28 +113,48 @@ let handle_r (line : string) =
           end)
   | _ -> failwith ("bad R line: " ^ line)
 
-let handle_p (line : string) =
+let rec handle_p (line : string) =
   match split_ws line with
+  | [ "PH"; pkg; step; path; ents; req; k; h; b; u ] ->
+      (* a request of a history: the page is a function of the current entries only, whatever was requested
+         before and whatever conditional headers the request carries *)
+      note_case "PH-request-history" line;
+      if field "U=" u <> "1" then begin
+        incr n_mismatch;
+        Printf.printf "PFAIL PH:%s:%s:%s:%s:slice step=%s request=%s || clause=serving a request modified the caller's message slice (a later request served from the same slice no longer shows the caller's messages)\n"
+          pkg path ents req step req
+      end;
+      if field "K=" k <> "200" then begin
+        incr n_mismatch;
+        Printf.printf "PFAIL PH:%s:%s:%s:%s:status step=%s request=%s status=%s obs=%s || clause=every response must be the full current page (status 200); a repeated / conditional request was answered differently\n"
+          pkg path ents req step req (field "K=" k) (field "B=" b)
+      end;
+      handle_p_body ("PH:" ^ pkg ^ ":" ^ path ^ ":" ^ ents ^ ":" ^ req ^ "@" ^ step) pkg path ents "K=200" h b
+  | [ "P"; pkg; path; ents; k; h; b ] ->
+      note_case "P" (String.concat " " [ "P"; pkg; path; ents ]);
+      handle_p_body (Printf.sprintf "P:%s:%s:%s" pkg path ents) pkg path ents k h b
+  | _ -> failwith ("bad P line: " ^ line)
+
+and handle_p_body tag pkg path ents k h b =
+  match [ "P"; pkg; path; ents; k; h; b ] with
   | [ "P"; pkg; path; ents; k; h; b ] ->
       let db = db_of pkg in
-      note_case "P" (String.concat " " [ "P"; pkg; path; ents ]);
       let entries =
         List.map (fun e ->
             match String.split_on_char ':' e with
             | [ kind; mi; payload ] ->
                 let m = List.nth db.db_messages (int_of_string ("0x" ^ mi)) in
-                let w = (match kind with "p" -> WPlain | "r" -> WRx | "t0" -> WTx false | "t1" -> WTx true | _ -> failwith "bad wrapper") in
+                let w = (match kind with "p" -> WPlain | "r" | "rn" -> WRx | "t0" | "tn0" -> WTx false | "t1" | "tn1" -> WTx true | _ -> failwith "bad wrapper") in
                 (match reach m (data_of_hex payload) with
                  | Some st -> debug_entry w m st
                  | None -> failwith "model rejects a page payload")
             | _ -> failwith ("bad entry " ^ e))
           (String.split_on_char ',' ents) in
-      let tag = Printf.sprintf "P:%s:%s:%s" pkg path ents in
       emit (tag ^ ":body") (field "B=" b) (Some (debug_page (bytes_of_hex path) entries));
       (* status 200 and the content type are constants of serveMessagesHTTP *)
       let ct = hex_of_bytes (List.map (fun c -> z_of_int (Char.code c)) (List.init 25 (String.get "text/plain; charset=utf-8"))) in
       if field "K=" k <> "200" || field "H=" h <> ct then mismatch (String.concat " " [ "P"; pkg; path; k; h ]) ("K=200 H=" ^ ct)
-  | _ -> failwith ("bad P line: " ^ line)
+  | _ -> failwith ("bad P line: " ^ tag)
 
 
 (* ---- call patterns: retained results, concurrency, prefixes ---------------------------------- *)
@@ -262,7 +282,7 @@ let handle line =
   else if starts line "AC " then handle_ac line
   else if starts line "B " || starts line "BF " then handle_b line
   else if starts line "R " || starts line "RR " then handle_r line
-  else if String.length line > 2 && String.sub line 0 2 = "P " then handle_p line
+  else if starts line "P " || starts line "PH " then handle_p line
   else if String.length line > 4 && String.sub line 0 4 = "PKG " then ()
   else failwith ("unparsable line: " ^ line)
 
